@@ -57,6 +57,7 @@ func cmdCheck(args []string) {
 		}
 	}
 	thorough := *tier == "thorough"
+	thoroughTier = thorough
 	secs := 10
 	if thorough {
 		secs = 60
